@@ -52,6 +52,9 @@ func HandWritten() []*Case {
 		mk("h32", "unions-sharing-prefix-and-member", "ph32", "type Shape interface{ isShape() }\ntype Shadow interface{ isShadow() }\ntype Circle struct{ R float64 }\nfunc (Circle) isShape() {}\nfunc (Circle) isShadow() {}\ntype W struct {\n\tA Shape\n\tB Shadow\n}\n", ""),
 		mk("h33", "wrapper-needed-behind-anonymous-container", "ph33", "type A struct {\n\tItems []B\n\tGrid [1]M\n}\n", "type U interface{ isU() }\ntype X struct{ N int }\nfunc (X) isU() {}\ntype B struct{ V U }\ntype M map[string]U\n"),
 		mk("h34", "tagged-siblings-of-union-field", "ph34", "type U interface{ isU() }\ntype X struct{ N int }\nfunc (X) isU() {}\ntype Y string\nfunc (Y) isU() {}\ntype W struct {\n\tV U `json:\"v\"`\n\tK int `json:\"kk\"`\n\tH int `json:\"-\"`\n\tO []int `json:\"o,omitempty\"`\n\tu int\n\tL UL\n\tM UM `json:\"m\"`\n}\ntype UL []U\ntype UM map[string]U\n", ""),
+		mk("h35", "embedded-unexported-struct", "ph35", "type timestamps struct {\n\tCreatedAt int\n\tUpdatedAt int `json:\"updated_at\"`\n}\ntype Audit struct{ By string }\ntype Document struct {\n\ttimestamps\n\tAudit\n\tTitle string\n\tTags []string\n}\n", ""),
+		mk("h36", "union-unexported-member", "ph36", "type Shape interface{ isShape() }\ntype Circle struct{ R float64 }\nfunc (Circle) isShape() {}\ntype square struct{ A float64 }\nfunc (square) isShape() {}\ntype W struct{ S Shape }\n", ""),
+		mk("h37", "union-members-named-slice-and-map", "ph37", "type U interface{ isU() }\ntype Labels []string\nfunc (Labels) isU() {}\ntype Attrs map[string]int\nfunc (Attrs) isU() {}\ntype X struct{ N int }\nfunc (X) isU() {}\ntype W struct {\n\tV U\n\tL UL\n}\ntype UL []U\n", ""),
 		withSub(mk("h21", "short-imported-package-name", "ph21", "type S struct{ V ab.T; W ab.N }\n", ""), "ab", "type T struct{ X int }\ntype N int\n"),
 		withSub(mk("h22", "two-letter-imported-package-name", "ph22", "type S struct{ V p2.T }\n", ""), "p2", "type T struct{ X string }\n"),
 	}
